@@ -127,6 +127,25 @@ Proof. intros [|[|r]] Hr; try lia; cbn; pose proof ux_small; lra. Qed.
 Lemma exs_size3 : INR 3 * ux < 1.
 Proof. cbn [INR]. pose proof ux_small. lra. Qed.
 
+
+(* the main loop without an exchange: [[2,1],[1,3]], shifted work matrix rows [2 1 0], [1 3 0] *)
+Definition exn_au0 : matrix AFlx := @mkM AFlx [2; 1; 0; 1; 3; 0] 2 3.
+Definition exn_p1 : R := xsub 3 (xmul exs_m 1).
+Definition exn_au : matrix AFlx := @mkM AFlx [2; 1; 0; exn_p1; xsub 0 (xmul exs_m 0); 0] 2 3.
+Definition exn_al : matrix AFlx := @mkM AFlx [exs_m; 0] 2 1.
+
+Lemma exn_loop :
+  for_ 0 2 (dec_step (A := AFlx) false 2 3) (exn_au0, @mat_new AFlx 2 1 0, repeat 0%nat 2, 1, 1%nat)
+  = Ok (exn_au, exn_al, [1%nat; 2%nat], 1, 2%nat).
+Proof. unfold exn_au0, exn_au, exn_al, exn_p1. repeat exs_step. reflexivity. Qed.
+
+Lemma exn_pivots : forall k, (k < 2)%nat -> mat_at (A := AFlx) exn_au 3 k 0 <> 0.
+Proof.
+  intros [|[|k]] Hk; try lia.
+  - cbn. lra.
+  - exact exs_p1_nz.
+Qed.
+
 (* ---------------------------------------------------------------- exact rationals: how long a history can get *)
 Local Close Scope R_scope.
 Local Open Scope nat_scope.
